@@ -1488,12 +1488,17 @@ func (ex *Exec) evalInstr(fr *frame, v ssa.Value) Value {
 			return b.E[i]
 		case VStr:
 			if b.Atom != nil && b.HexNum {
-				// a character of the 64-digit zero-padded lower-case rendering; values are below 16^62, so the first
-				// (two) digit(s) are '0'
-				if idx.Const && idx.I.Sign() == 0 {
+				// a character of the zero-padded lower-case rendering: the first one is '0' for values below 16^63 and
+				// in the alternative spelling
+				c := ex.aux("hexchar")
+				if idx.Const && idx.I.Sign() == 0 && b.HexLead > 0 {
 					return VInt{IntC('0')}
 				}
-				c := ex.aux("hexchar")
+				if idx.Const && idx.I.Sign() == 0 {
+					v, bit := ex.hexNumParts(b)
+					ex.assume(Or(And(Ge(c, IntC('0')), Le(c, IntC('9'))), And(Ge(c, IntC('a')), Le(c, IntC('f')))))
+					return VInt{Ite(Or(Eq(bit, IntC(1)), Lt(v, IntB(pow16(63)))), IntC('0'), c)}
+				}
 				ex.assume(Or(And(Ge(c, IntC('0')), Le(c, IntC('9'))), And(Ge(c, IntC('a')), Le(c, IntC('f')))))
 				return VInt{c}
 			}
@@ -1794,7 +1799,13 @@ func (ex *Exec) binop(op token.Token, a, b Value, opType, resType types.Type) Va
 					return VStr{Atom: &t}
 				}
 			}
-		case token.LSS:
+		case token.LSS, token.GTR:
+			if op == token.GTR {
+				x, y = y, x
+			}
+			if x.Atom != nil && y.Atom != nil && x.HexNum && y.HexNum {
+				return VBool{ex.hexNumLess(x, y)}
+			}
 			if x.Atom != nil && y.Atom != nil {
 				return VBool{Lt(*x.Atom, *y.Atom)}
 			}
@@ -1841,7 +1852,7 @@ func (ex *Exec) flattenStr(x VStr, out *[]Term) bool {
 	case x.Atom != nil:
 		tag := int64(-7)
 		if x.HexNum {
-			tag = -8
+			tag = -8 - int64(x.HexLead)
 		}
 		*out = append(*out, IntC(tag), *x.Atom)
 	case x.IsHexOf:
@@ -1883,6 +1894,11 @@ func (ex *Exec) strEq(x, y VStr) Term {
 	switch {
 	case x.Conc != nil && y.Conc != nil:
 		return BoolC(*x.Conc == *y.Conc)
+	case x.Atom != nil && y.Atom != nil && x.HexNum && y.HexNum && x.HexLead != y.HexLead:
+		// texts zero-padded to their own lengths: equal iff same length and same number
+		vx, _ := ex.hexNumParts(x)
+		vy, _ := ex.hexNumParts(y)
+		return And(Eq(vx, vy), Eq(ex.hexNumLen(x), ex.hexNumLen(y)))
 	case x.Atom != nil && y.Atom != nil:
 		return Eq(*x.Atom, *y.Atom)
 	case x.Atom != nil && y.Conc != nil:
@@ -2128,9 +2144,7 @@ func (ex *Exec) builtin(fr *frame, b *ssa.Builtin, cc *ssa.CallCommon, args []Va
 				return VInt{IntC(int64(len(x.Bytes)))}
 			}
 			if x.Atom != nil && x.HexNum {
-				// hex numeral atom: 64 digits, or 66 with the alternative spelling (two leading zeros)
-				_, bit := ex.divModPos(*x.Atom, big.NewInt(2))
-				return VInt{Ite(Eq(bit, IntC(1)), IntC(66), IntC(64))}
+				return VInt{ex.hexNumLen(x)}
 			}
 			if x.Atom != nil && x.N > 0 {
 				return VInt{IntC(int64(x.N))}
@@ -2206,4 +2220,42 @@ func (ex *Exec) builtin(fr *frame, b *ssa.Builtin, cc *ssa.CallCommon, args []Va
 		return VInt{IntC(int64(n))}
 	}
 	panic(unsupported{"builtin " + b.Name()})
+}
+
+func pow16(n int) *big.Int { return new(big.Int).Lsh(big.NewInt(1), uint(4*n)) }
+
+// hexNumParts: numeric value and spelling bit of a hex numeral atom (id = 2*value + bit).
+func (ex *Exec) hexNumParts(x VStr) (Term, Term) { return ex.divModPos(*x.Atom, big.NewInt(2)) }
+
+// hexNumLen: length of a hex numeral atom's text: the value zero-padded to 64 digits (longer from 16^64 on, the
+// domain ends below 16^68), two more zeros in front in the alternative spelling.
+func (ex *Exec) hexNumLen(x VStr) Term {
+	v, bit := ex.hexNumParts(x)
+	l := Add(IntC(int64(64+x.HexLead)), Mul(bit, IntC(2)))
+	for k := 64; k < 68; k++ {
+		l = Add(l, Ite(Ge(v, IntB(pow16(k))), IntC(1), IntC(0)))
+	}
+	return ex.nameT(l)
+}
+
+// hexNumLess: byte-wise (lexicographic) order of two hex numeral texts. Each text is its value zero-padded to its
+// own length, so equal lengths order like the numbers; otherwise the shorter text is compared with the same
+// number of leading digits of the longer one, and a proper prefix is the smaller string.
+func (ex *Exec) hexNumLess(x, y VStr) Term {
+	vx, _ := ex.hexNumParts(x)
+	vy, _ := ex.hexNumParts(y)
+	lx := ex.concretize(ex.hexNumLen(x), 64, 72)
+	ly := ex.concretize(ex.hexNumLen(y), 64, 72)
+	switch {
+	case lx < 0 || ly < 0:
+		panic(unsupported{"hex numeral length outside 64..72"})
+	case lx == ly:
+		return Lt(vx, vy)
+	case lx < ly:
+		q, _ := ex.divModPos(vy, pow16(ly-lx))
+		return Le(vx, q)
+	default:
+		q, _ := ex.divModPos(vx, pow16(lx-ly))
+		return Lt(q, vy)
+	}
 }
